@@ -14,7 +14,7 @@ import random
 
 import numpy as np
 
-from .. import core, geo, inputforms, motlutil
+from .. import core, geo, inputforms, mapsys, motlutil
 
 SNAP = 1e-9
 
@@ -577,6 +577,8 @@ def replay(ctx, case):
         HANDLERS[k](ctx, case)
     elif k in ("l3_rotblob", "l3_sym", "l3_dtype", "l3_grey"):
         run_l3(ctx, [case], name="replay")
+    elif k == "mapsys":
+        mapsys.replay(ctx, case)
     else:
         raise core.MachineryError("unknown case kind %r" % k)
 
@@ -902,3 +904,6 @@ def run(ctx):
     for k, c in enumerate(cases):
         c["id"] = k + 1
     run_l3(ctx, cases)
+    # ---- composition (DESIGN 9.4): windowing / flip / right-angle rotation as steps of mixed histories on a pool of
+    # live maps and files (IO, mask algebra, thresholding in between), judged by MapSysTrace.tla in scope "geom"
+    mapsys.run(ctx, "geom", ctx.pick(150, 3000))
